@@ -291,3 +291,28 @@ func (m *model) lsSlack(s, e int) fixed.Int26_6 {
 	}
 	return sl
 }
+
+// hardSegments lists the spans [w0,w1) between consecutive valid UAX #14 candidates that offer the
+// grapheme fallback nothing: no valid grapheme candidate strictly inside and none at the end (the end
+// is not a grapheme boundary, e.g. SPACE followed by a combining mark). Such a segment can only be
+// placed whole. multiRun tells whether one of them spans a run boundary.
+func (m *model) hardSegments() (segs [][2]int, multiRun bool) {
+	w0 := 0
+	for w1 := 1; w1 <= m.n; w1++ {
+		if !m.validOpp(w1) {
+			continue
+		}
+		usable := false
+		for p := w0 + 1; p <= w1 && !usable; p++ {
+			usable = m.validGr(p)
+		}
+		if !usable {
+			segs = append(segs, [2]int{w0, w1})
+			if m.runOf[w0] != m.runOf[w1-1] {
+				multiRun = true
+			}
+		}
+		w0 = w1
+	}
+	return
+}
